@@ -18,6 +18,10 @@ TRUSTED = ("Trusted base: the simulator in /verif/sim (virtual-time loop, link m
            "models) and CPython's asyncio scheduler. Pure-python zeroconf from /repo/src is what runs; the Cython build "
            "and the threaded wrappers are not exercised. A clean batch is sampled evidence, not proof.")
 
+REGRESSION_NOTE = (" Every run first replays the minimised failing histories of the defects repaired so far "
+                   "(/verif/regression/<id>/, DESIGN.md section 14), so a defect that returns is reported by its own "
+                   "history; fault kinds include process stalls (DESIGN.md section 14) where the oracle tolerates lateness.")
+
 SIM = "deterministic simulation: virtual-time asyncio loop + simulated multicast link, seeded schedule/fault search, "
 
 CHECKS = {
@@ -178,7 +182,8 @@ def main():
             "evidence_file": f"/verif/evidence/{pid}.json",
             "replay_cmd_template": f"PYTHONHASHSEED=0 {PY} -m {mod} --replay {{path}}",
             "engine": "zsim",
-            "level_claimed": {"category": c.get("category", "exploration"), "text": c["text"], "design_ref": c["design_ref"]},
+            "level_claimed": {"category": c.get("category", "exploration"), "text": c["text"] + REGRESSION_NOTE,
+                              "design_ref": c["design_ref"]},
             "level_note": c.get("note", TRUSTED),
             "technique": c["technique"],
         })
